@@ -28,6 +28,8 @@ def run(prog, chk):
     C03.stable_sort(prog, chk)
     C03.real_svg_scan(prog, chk)
     C03.reader_defaults(prog, chk)
+    C03.no_precheck(prog, chk)
+    generated_comment_ops(prog, chk)
     normalisation_idempotent(prog, chk)
     # findings of C02/C03 that do not break the fixed point are not obligations of this property
     drop = {
@@ -91,3 +93,14 @@ def normalisation_idempotent(prog, chk):
         "classes are appended only by ClassList::insert, under `!contains(class)`: the written class attribute never repeats a token (the reader would de-duplicate it on the next pass)",
         f"the class list can receive duplicates (appenders: {sorted(appenders)}; guarded by contains: {guarded}): `class=\"a a\"` written on the first pass is re-read as `class=\"a\"`",
     )
+
+
+def generated_comment_ops(prog, chk):
+    """the --debug source echo is written into a comment: every `<`, `>` and `"` of the element's source text is removed /
+    replaced first (two replace() calls), so the echo cannot end the comment early; frozen so that a weaker sanitiser is noticed"""
+    b = prog.body("svgdx::element::SvgElement::element_events")
+    chk.touch(b)
+    import collections
+    from props.C19 import TEXT_ALTERING
+    seen = collections.Counter(c.path.split("::")[-1] for (bb, t, c) in b.call_sites(lambda c: c.path.split("::")[-1] in TEXT_ALTERING and ("str" in c.path.lower() or "string" in c.path.lower())))
+    chk.ob(dict(seen) == {"replace": 2}, "A14.debug-echo", "element_events", b.where(), "the debug echo is sanitised by the two reviewed replace() calls (quotes -> backticks, all angle brackets removed)", f"the string operations that sanitise the --debug source echo changed ({dict(seen)}, reviewed: two replace() calls): a `>` or `-->` inside an attribute value can now end the comment early, so the output is not stable under re-processing")
